@@ -32,6 +32,7 @@ func init() {
 			{Name: "H_C16_truncate_hybrid", Tier: "quick", What: "hybrid (flat [+text] + metadata) concatenated stream: every strict prefix rejected", Covers: []string{"ran"}},
 			{Name: "H_C16_mismatch", Tier: "quick", What: "7 kinds x writer state (fresh-untrained / trained-empty / populated): stream into a receiver of each other kind (7x6 pairs), altered version byte, receiver differing in exactly one of dim / metric (all 6 ordered pairs) / M / efConstruction / efSearch / nlist / PQ M / nbits, hybrid sub-index presence: error", Covers: []string{"ran"}},
 			{Name: "H_C16_segment", Tier: "quick", What: "store segment clause: one flushed segment (2 documents; templates flat+text+metadata and flat only), one of its 2..4 gzip component files cut to EVERY strict prefix (0 = empty) or deleted; reopened with fresh templates: Open succeeds and the segment contributes nothing to vector / text / metadata searches (native replay sweeps every prefix of the real gzip files)", Covers: []string{"missing", "truncated"}},
+			{Name: "H_C16_segment_load", Tier: "quick", What: "the loading unit segmentMetadata.getIndex on the same damaged segments (every prefix of every component file, or the file deleted): each of three consecutive attempts returns an error and no index, and nothing is cached", Covers: []string{"missing", "truncated"}},
 		},
 		Bounds:      []string{"streams of 30..400 bytes: all prefix lengths, not a sample", "three states per trainable kind (fresh, trained-empty, 3 vectors), two for the others (empty, 2-3 documents)", "segments: one segment of two documents, every prefix of each component file"},
 		Outside:     []string{"arbitrary corruption (bit flips, hostile length fields) — not in the property", "segment files inside the engine use the gzip framing model (header 2 bytes, payload, trailer 5 bytes): real deflate block boundaries are only reached by the native sweep of a replay", "prefixes of real roaring / BSI byte formats (model formats inside the engine)"},
